@@ -329,6 +329,11 @@ def r13_6_propagation(repo: Repo, rep: Report):
     if rr:
         first_insn = min((n.lineno for n in body_walk(loop) if isinstance(n, ast.Assign) and src(n.targets[0]) == "opcode"), default=10**9)
         rep.check("R13.6", rr[0].lineno < first_insn, m, rr[0], "the re-raise precedes instruction dispatch", "failure re-raised after an instruction already ran")
+        # the failing branch of a symbolic vm.assert* keeps the negated relation in path.pending until activation: a
+        # path that ends before it was activated is reported without the constraint that makes it a failure
+        acts = [c for c in body_walk(loop) if isinstance(c, ast.Call) and src(c.func) == "ex.path.activate"]
+        ok = len(acts) == 1 and acts[0].lineno < rr[0].lineno and {g.replace(" ", "") for g in guard_set(m, acts[0])} - {g.replace(" ", "") for g in guard_set(m, rr[0])} <= {"not(ex.path.is_activated())", "notex.path.is_activated()"}
+        rep.check("R13.6", ok, m, acts[0] if acts else loop, "ex.path.activate() (unless activated) precedes the delayed re-raise", "a delayed failure is yielded with its pending conditions (the negated assertion) not in the path: the reported failing path admits inputs that pass the assertion")
     hs = [h for t in body_walk(run) if isinstance(t, ast.Try) for h in t.handlers if h.type is not None and src(h.type) == "FailCheatcode"]
     ok = len(hs) == 1
     if ok:
